@@ -91,6 +91,9 @@ let handle = function
   | L [A "eval"; e; L bvs; L bools] -> value_sexp (eval (env_of bvs bools) (expr_of e))
   | L [A "evalop"; A op; L ints; L vals] -> value_sexp (eval_op (op_of_string op) (List.map z_a ints) (List.map value_of vals))
   | L (A "bv" :: A name :: args) -> bvfn name args
+  | L [A "meta"; e] ->
+    let x = expr_of e in
+    L [A (if symbolic x then "1" else "0"); A (string_of_int (int_of_nat (depth x))); a_z (elen x)]
   | _ -> failwith "unknown command"
 
 let () =
